@@ -17,6 +17,9 @@ struct FileSpec {
     includes: Vec<String>,
     templates: Vec<String>,
     functions: Vec<String>,
+    /// 0 = `pragma circom 2.0.0`, 1 = a version newer than the tool supports (an error, after which the
+    /// file's includes and definitions still count), 2 = no pragma (a warning)
+    pragma: u8,
 }
 
 #[derive(Clone, Debug)]
@@ -29,6 +32,8 @@ struct Proj {
     /// -L arguments (relative to root)
     libs: Vec<String>,
     absolute_args: bool,
+    /// directories named on the command line: every `.circom` file below them is a named file
+    named_dirs: Vec<String>,
 }
 
 fn dir_of(rel: &str) -> &str {
@@ -76,7 +81,12 @@ fn gen_proj(t: &mut Tape) -> Proj {
         let nt = 1 + t.below(2);
         let templates = (0..nt).map(|j| format!("T{i}x{j}")).collect();
         let functions = if t.chance(80) { vec![format!("g{i}")] } else { vec![] };
-        files.push(FileSpec { rel, includes: vec![], templates, functions });
+        let pragma = match t.below(16) {
+            0 | 1 => 1,
+            2 => 2,
+            _ => 0,
+        };
+        files.push(FileSpec { rel, includes: vec![], templates, functions, pragma });
     }
     let mut symlinks = Vec::new();
     if t.chance(80) {
@@ -155,14 +165,14 @@ fn gen_proj(t: &mut Tape) -> Proj {
     let mut shadow_includer: Option<usize> = None;
     if libs.iter().any(|l| l == "lib") && t.chance(70) {
         let base = files.len();
-        files.push(FileSpec { rel: "lib/zs.circom".into(), includes: vec![], templates: vec![format!("T{base}x0")], functions: vec![] });
-        files.push(FileSpec { rel: "sub/zs.circom".into(), includes: vec![], templates: vec![format!("T{}x0", base + 1)], functions: vec![] });
-        files.push(FileSpec { rel: "sub/zb.circom".into(), includes: vec!["zs.circom".into()], templates: vec![format!("T{}x0", base + 2)], functions: vec![] });
+        files.push(FileSpec { rel: "lib/zs.circom".into(), includes: vec![], templates: vec![format!("T{base}x0")], functions: vec![], pragma: 0 });
+        files.push(FileSpec { rel: "sub/zs.circom".into(), includes: vec![], templates: vec![format!("T{}x0", base + 1)], functions: vec![], pragma: 0 });
+        files.push(FileSpec { rel: "sub/zb.circom".into(), includes: vec!["zs.circom".into()], templates: vec![format!("T{}x0", base + 2)], functions: vec![], pragma: 0 });
         let mut inc = vec!["zs.circom".to_string(), "sub/zb.circom".to_string()];
         if t.chance(128) {
             inc.reverse();
         }
-        files.push(FileSpec { rel: "za.circom".into(), includes: inc, templates: vec![format!("T{}x0", base + 3)], functions: vec![] });
+        files.push(FileSpec { rel: "za.circom".into(), includes: inc, templates: vec![format!("T{}x0", base + 3)], functions: vec![], pragma: 0 });
         shadow_includer = Some(base + 3);
     }
     let n = files.len();
@@ -187,11 +197,24 @@ fn gen_proj(t: &mut Tape) -> Proj {
         }
     }
     let absolute_args = t.chance(100);
-    Proj { files, symlinks, named, libs, absolute_args }
+    // a directory as argument (alone or next to files): "." is the whole project
+    let mut named_dirs = Vec::new();
+    if t.chance(50) {
+        let d = ["sub", "sub/deep", "lib", ".", "lib2"][t.below(5)];
+        named_dirs.push(d.to_string());
+        if t.chance(128) && shadow_includer.is_none() {
+            named.clear();
+        }
+    }
+    Proj { files, symlinks, named, libs, absolute_args, named_dirs }
 }
 
 fn file_source(f: &FileSpec) -> String {
-    let mut s = String::from("pragma circom 2.0.0;\n");
+    let mut s = String::from(match f.pragma {
+        1 => "pragma circom 2.1.9;\n",
+        2 => "// no pragma\n",
+        _ => "pragma circom 2.0.0;\n",
+    });
     for inc in &f.includes {
         s.push_str(&format!("include \"{inc}\";\n"));
     }
@@ -274,6 +297,23 @@ fn expected(root: &Path, p: &Proj) -> Expected {
             work.push(c);
         }
     }
+    for d in &p.named_dirs {
+        let mut dirs = vec![root.join(d)];
+        while let Some(dir) = dirs.pop() {
+            let Ok(entries) = std::fs::read_dir(&dir) else { continue };
+            for e in entries.flatten() {
+                let path = e.path();
+                if path.is_dir() {
+                    dirs.push(path);
+                } else if path.extension().map(|x| x == "circom").unwrap_or(false) {
+                    if let Ok(c) = std::fs::canonicalize(&path) {
+                        named.insert(c.clone());
+                        work.push(c);
+                    }
+                }
+            }
+        }
+    }
     let mut reads = BTreeSet::new();
     let mut unresolved = Vec::new();
     let mut edges = 0usize;
@@ -325,7 +365,9 @@ fn check_project_in(ctx: &Ctx, p: &Proj, rec: &Rec, root: &Path) -> Verdict {
     let exp = expected(root, p);
     // arguments are given relative to the project root (the working directory) or absolute
     let arg = |s: &str| if p.absolute_args { root.join(s) } else { PathBuf::from(s) };
-    let mut opts = RunOpts::files(&p.named.iter().map(|(_, s)| arg(s)).collect::<Vec<_>>()).verbose().level("info");
+    let mut args: Vec<PathBuf> = p.named.iter().map(|(_, s)| arg(s)).collect();
+    args.extend(p.named_dirs.iter().map(|d| arg(d)));
+    let mut opts = RunOpts::files(&args).verbose().level("info");
     opts.libs = p.libs.iter().map(|l| arg(l)).collect();
     opts.cwd = Some(root.to_path_buf());
     opts.rust_log = Some("circomspect_parser=debug".into());
@@ -334,9 +376,9 @@ fn check_project_in(ctx: &Ctx, p: &Proj, rec: &Rec, root: &Path) -> Verdict {
     opts.sarif = Some(sarif_path.clone());
     let out = binrun::run(&ctx.repo_bin, &opts).map_err(|e| Bad::new(format!("INFRA {e}")))?;
     let render = || {
-        let mut s = format!("named: {:?}\nlibs: {:?}\nsymlinks: {:?}\n", p.named, p.libs, p.symlinks);
+        let mut s = format!("named: {:?}\nnamed directories: {:?}\nlibs: {:?}\nsymlinks: {:?}\n", p.named, p.named_dirs, p.libs, p.symlinks);
         for f in &p.files {
-            s.push_str(&format!("--- {} includes {:?} defines {:?} {:?}\n", f.rel, f.includes, f.templates, f.functions));
+            s.push_str(&format!("--- {} (pragma form {}) includes {:?} defines {:?} {:?}\n", f.rel, f.pragma, f.includes, f.templates, f.functions));
         }
         s.push_str(&format!("--- stdout\n{}\n--- stderr (log)\n{}", out.stdout, out.stderr));
         s
@@ -356,6 +398,15 @@ fn check_project_in(ctx: &Ctx, p: &Proj, rec: &Rec, root: &Path) -> Verdict {
     }
     if !p.libs.is_empty() {
         rec.class("projects_with_library_arguments");
+    }
+    if !p.named_dirs.is_empty() {
+        rec.class("projects_with_directory_argument");
+    }
+    {
+        let canon_of = |f: &FileSpec| std::fs::canonicalize(root.join(&f.rel)).ok();
+        if p.files.iter().any(|f| f.pragma == 1 && !f.includes.is_empty() && canon_of(f).map(|c| exp.reads.contains(&c)).unwrap_or(false)) {
+            rec.class("projects_with_unsupported_pragma_in_a_read_file_that_includes");
+        }
     }
     {
         let mut bases: Vec<&str> = p.files.iter().map(|f| f.rel.rsplit('/').next().unwrap_or("")).collect();
@@ -555,7 +606,7 @@ pub fn run(ctx: &Ctx) -> i32 {
         &outcome,
         EvidenceSpec {
             level: "exploration",
-            rule: "projects of 2-6 files spread over five directories with generated include graphs (chains, diamonds, cycles, self includes; spellings `x`, `./x`, `dir/../x`, `../dir/x`, bare names resolved through -L directories and -L files, includes through a symlink, unresolvable includes), a generated choice of named files (also spelled `./x` or through a symlink) and of library arguments in either order. Every file defines uniquely named templates with one deterministic `<--` finding. The real binary runs with RUST_LOG=circomspect_parser=debug; a reference resolver (includer directory first, then libraries in order) computes the reachable file set on the materialised tree. Checked: clean termination; each reachable file (by canonical path) read exactly once and nothing else read; `analyzing` lines = definitions of named files, once each; all located findings in named files; one `<--` finding per template of a named file; unresolvable includes of named files = P1000 errors at the include statement's line. Non-trivial = project whose include graph has a cycle, a diamond or a file reached twice; distinct by project hash.",
+            rule: "projects of 2-6 files spread over five directories with generated include graphs (chains, diamonds, cycles, self includes; spellings `x`, `./x`, `dir/../x`, `../dir/x`, bare names resolved through -L directories and -L files, includes through a symlink, unresolvable includes), a generated choice of named files (also spelled `./x` or through a symlink, and in a sixth of the projects a directory argument - alone or next to files - naming every `.circom` file below it) and of library arguments in either order. A fifth of the files carry a pragma the tool does not support or none at all (an error or a warning, after which their includes and definitions count as before). Every file defines uniquely named templates with one deterministic `<--` finding. The real binary runs with RUST_LOG=circomspect_parser=debug; a reference resolver (includer directory first, then libraries in order) computes the reachable file set on the materialised tree. Checked: clean termination; each reachable file (by canonical path) read exactly once and nothing else read; `analyzing` lines = definitions of named files, once each; all located findings in named files; one `<--` finding per template of a named file; unresolvable includes of named files = P1000 errors at the include statement's line. Non-trivial = project whose include graph has a cycle, a diamond or a file reached twice; distinct by project hash.",
             assumptions: vec!["read counts are taken from the parser's own debug log line `reading file`".into()],
             extra: json!({}),
         },
